@@ -34,6 +34,10 @@ fn lib() -> (Vec<PkgSpec>, Vec<PkgSpec>) {
         // a plug export named exactly like one of them belongs to that one, whatever the order
         PkgSpec::new("s:s8", None, &[("a:b/i@0.2.0", ifc.clone()), ("a:b/i@0.2.1", ifc.clone())], &[("out", f0.clone())]),
         PkgSpec::new("s:s9", None, &[("a:b/i@1.1.0", ifc.clone()), ("a:b/i@1.0.0", ifc.clone()), ("x", f0.clone())], &[]),
+        // tracks whose textual key is a prefix of another track's (1 / 10, 0.2 / 0.20), alone and next to the shorter one
+        PkgSpec::new("s:s10", None, &[("a:b/i@10.0.0", ifc.clone())], &[("out", f0.clone())]),
+        PkgSpec::new("s:s11", None, &[("a:b/i@0.20.3", ifc.clone()), ("x", f0.clone())], &[]),
+        PkgSpec::new("s:s12", None, &[("a:b/i@1.0.0", ifc.clone()), ("a:b/i@10.0.0", ifc.clone())], &[]),
     ];
     let plugs = vec![
         PkgSpec::new("p:p0", None, &[], &[("x", f0.clone())]),
@@ -48,6 +52,8 @@ fn lib() -> (Vec<PkgSpec>, Vec<PkgSpec>) {
         PkgSpec::new("p:p9", None, &[], &[("a:b/i@1.0.0", i(&[("f", f1.clone())])), ("x", f0.clone())]),
         PkgSpec::new("p:p10", None, &[], &[("a:b/i@0.2.0", ifc.clone()), ("a:b/i@0.2.1", ifc.clone())]),
         PkgSpec::new("p:p11", None, &[], &[("a:b/i@0.2.2", ifc.clone())]),
+        PkgSpec::new("p:p12", None, &[], &[("a:b/i@10.2.0", ifc.clone())]),
+        PkgSpec::new("p:p13", None, &[], &[("a:b/i@0.20.0", ifc.clone())]),
     ];
     (sockets, plugs)
 }
